@@ -196,9 +196,11 @@ Definition srv_step (f : oframing) (s : srv) (e : oev) : srv :=
   if sv_done s then s else
   match f, e with
   | ONoBody, OSeg b =>
-      (* writeReplyBody(): truncateVirginBody() returns early (no body expected), then everything buffered
-         is handed to addVirginReplyBody(); "http parsed header-only reply"; bodySize()==0 -> statusIfComplete() *)
-      {| sv_dec := sv_dec s; sv_seen := sv_seen s + lenN b; sv_body := sv_body s ++ b; sv_whole := true; sv_done := true |}
+      (* writeReplyBody(): truncateVirginBody() treats a reply without a body as clen = 0 and chops everything
+         that was read after the head (payloadTruncated += extras), so nothing reaches addVirginReplyBody();
+         "http parsed header-only reply"; persistentConnStatus(): bodySize()==0 -> statusIfComplete(), or
+         COMPLETE_NONPERSISTENT_MSG when bytes were dropped — serverComplete() either way *)
+      {| sv_dec := sv_dec s; sv_seen := sv_seen s; sv_body := sv_body s; sv_whole := true; sv_done := true |}
   | ONoBody, OEof =>
       {| sv_dec := sv_dec s; sv_seen := sv_seen s; sv_body := sv_body s; sv_whole := true; sv_done := true |}
   | OLen n, OSeg b =>
@@ -233,7 +235,7 @@ Definition srv_run (f : oframing) (evs : list oev) : srv := fold_left (srv_step 
 (* how the client-side frames the message it sends *)
 Inductive cframing :=
 | CHeadOnly           (* HEAD: body_size = 0, done_copying *)
-| CNoBody             (* 204 / 304 / 1xx: bodySize() = 0, whatever the store holds is written after the head *)
+| CNoBody             (* 204 / 304 / 1xx: bodySize() = 0; the store holds no body bytes for such a reply *)
 | CLen (n : N)        (* Content-Length kept *)
 | CChunked            (* request->flags.chunkedReply *)
 | CCloseDelim.        (* unknown size to an HTTP/1.0 client: proxyKeepalive = false *)
